@@ -178,6 +178,14 @@ def gen_cases(ctx):
     # L3: the same values as int / float32 / Fortran-ordered / strided-view / read-only arrays (lists where accepted)
     r = ctx.rng
     yield from flavoured(r, r.sample(base, min(len(base), 1500 if ctx.thorough else 450)))
+    # all-integer grid matrices in every flavour (an int64 / int32 / float32 Sim(3) or SE(3) matrix is a legal argument: the
+    # result must not be computed in the argument's dtype) — signed permutations, integer translations, integer scales
+    for j in range(240 if ctx.thorough else 48):
+        fl = FLAVOURS[j % len(FLAVOURS)]
+        ti = lambda: [float(r.randint(-64, 64)) for _ in range(3)]
+        yield {"kind": "sim3", "grid": True, "R": perm_rot(r), "t": ti(), "s": float(r.choice([1, 2, 2, 3, 4, 5, 8, 64, 1000])),
+               "flavour": fl, "intgrid": True}
+        yield {"kind": "se3", "grid": True, "a": to4(perm_rot(r), ti()), "b": to4(perm_rot(r), ti()), "flavour": fl, "intgrid": True}
 
 
 def base_cases(ctx):
@@ -417,11 +425,17 @@ def run_impl_(case):
         return out
     if k == "sim3":
         R, t, s = arr(case["R"], case), arr(case["t"], case), case["s"]
-        S = lie.sim3(R, t, s)
-        S0 = S.copy()
-        out = {"sim3": L(S), "scale": float(lie.sim3_scale(S)), "inv": L(lie.sim3_inverse(S)),
-               "inv_scale": float(lie.sim3_scale(lie.sim3_inverse(S))), "is_sim3": bool(lie.is_sim3(S)),
-               "is_sim3_s": bool(lie.is_sim3(S, s))}
+        S_built = lie.sim3(R, t, s)
+        S0 = np.array(S_built, dtype=float)
+        # the matrix handed on to the other helpers in the flavour of the case (int / float32 only if exactly representable)
+        # (a float32 matrix makes numpy evaluate det and the cube root in float32: float32 rounding, outside the binary64 domain)
+        S = arr(L(S0), case) if case.get("flavour") not in (None, "f32") else S_built
+        if isinstance(S, list):
+            S = np.array(S)
+        Sinv = lie.sim3_inverse(S)
+        out = {"sim3": L(S_built), "scale": float(lie.sim3_scale(S)), "inv": L(Sinv),
+               "inv_scale": float(lie.sim3_scale(Sinv)), "is_sim3": bool(lie.is_sim3(S)),
+               "is_sim3_s": bool(lie.is_sim3(S, s)), "is_sim3_inv": bool(lie.is_sim3(Sinv))}
         out["unchanged"] = same(S, S0) and same(R, case["R"]) and same(t, case["t"])
         return out
     if k == "member":
@@ -715,6 +729,8 @@ def judge_sim3(ctx, case, impl, outs):
         ctx.fail(case, "sim3-scale-recovered", f"scale of the inverse is {impl['inv_scale']}, expected 1/{case['s']}")
     if not impl["is_sim3"] or not impl["is_sim3_s"]:
         ctx.fail(case, "member-accept", "a genuine Sim(3) element is rejected by is_sim3")
+    if impl.get("is_sim3_inv") is False:
+        ctx.fail(case, "member-accept", "the inverse of a genuine Sim(3) element is rejected by is_sim3")
     ctx.count("branch", "sim3-grid" if exact else "sim3-random")
     ctx.count("dist", "scale-1e%+d" % int(math.floor(math.log10(case["s"]))))
     ctx.record(case, case["s"] != 1.0)
